@@ -81,15 +81,24 @@ class AccessError(Exception):
     pass
 
 
+class Budget(Exception):
+    """The access budget given to the trace was exhausted (kernel too large for the interpreter; reported, not judged)."""
+
+
 class Trace:
     """Per-array summary of accesses; violations collected, not raised, so that one run reports all of them."""
 
-    def __init__(self):
+    def __init__(self, budget=None):
+        self.budget = budget
+        self.n = 0
         self.arr = {}  # name -> [min tuple, max tuple, reads, writes(=), addwrites(+=)]
         self.oob = []  # (name, idx, shape, mode)
         self.uninit = []  # reads of never-written local entries
 
     def touch(self, name, idx, mode):
+        self.n += 1
+        if self.budget is not None and self.n > self.budget:
+            raise Budget()
         t = self.arr.get(name)
         if t is None:
             self.arr[name] = t = [list(idx), list(idx), 0, 0, 0]
@@ -137,7 +146,7 @@ MATH = {
     "acosh": _mf(math.acosh, cmath.acosh), "asinh": _mf(math.asinh, cmath.asinh), "atanh": _mf(math.atanh, cmath.atanh),
     "power": lambda a, b: (complex(a) ** b) if (isinstance(a, complex) or isinstance(b, complex) or (a < 0 and b != int(b))) else a ** b,
     "exp": _mf(math.exp, cmath.exp), "ln": _mf(math.log, cmath.log), "erf": lambda x: math.erf(x.real if isinstance(x, complex) else x),
-    "atan_2": lambda a, b: math.atan2(np.real(a), np.real(b)), "min_value": lambda a, b: min(np.real(a), np.real(b)),
+    "atan_2": lambda a, b: math.atan2(np.real(a), np.real(b)), "atan2": lambda a, b: math.atan2(np.real(a), np.real(b)), "min_value": lambda a, b: min(np.real(a), np.real(b)),
     "max_value": lambda a, b: max(np.real(a), np.real(b)), "bessel_y": _yn, "bessel_j": _jn,
     "real": lambda x: x.real if isinstance(x, complex) else x, "imag": lambda x: x.imag if isinstance(x, complex) else 0.0,
     "conj": lambda x: x.conjugate() if isinstance(x, complex) else x,
@@ -262,7 +271,7 @@ class Program:
             raise NotImplementedError(type(s).__name__)
 
     # -- execution -----------------------------------------------------------------------------
-    def run(self, A, w, c, X, ent, perm, trace: Trace | None = None, null_entity=False):
+    def run(self, A, w, c, X, ent, perm, trace: Trace | None = None, null_entity=False, shared=None, shared_names=(), on_shared=None):
         """Execute on 1-D numpy buffers (A is updated in place). Returns the trace."""
         L = self.L
         tr = trace or Trace()
@@ -272,6 +281,8 @@ class Program:
             names[id(b)] = nm
 
         def R(arr, name, idx):
+            if on_shared is not None and name in shared_names:
+                on_shared()
             if arr is None:
                 tr.oob.append((name, tuple(idx), None, "read of NULL pointer"))
                 return 0
@@ -287,6 +298,8 @@ class Program:
             return v.item() if hasattr(v, "item") else v
 
         def W(arr, name, idx, val, mode):
+            if on_shared is not None and name in shared_names:
+                on_shared()
             if arr is None or len(idx) != arr.ndim or any(not (0 <= i < n) for i, n in zip(idx, arr.shape)):
                 tr.oob.append((name, tuple(int(k) for k in idx), None if arr is None else arr.shape, "write"))
                 return
@@ -304,6 +317,14 @@ class Program:
 
         def DECL(key):
             s = self.decls[key]
+            if shared is not None and s.symbol.name in shared_names:
+                # C semantics of a static object: one instance, initialised once, shared by all invocations
+                if s.symbol.name not in shared:
+                    shared[s.symbol.name] = _make(s)
+                return shared[s.symbol.name]
+            return _make(s)
+
+        def _make(s):
             dty = {L.DataType.INT: np.int64, L.DataType.BOOL: np.bool_}.get(s.symbol.dtype, None)
             if dty is None:
                 dty = complex if (self.cmplx and s.symbol.dtype == L.DataType.SCALAR) else float
